@@ -41,12 +41,16 @@ Used == {pth[q] : q \in Parts} \ {-1}
 Fresh == {t \in 1 .. P.N : t # cal /\ t \notin Used}
 TCands == {cal} \cup Used \cup (IF Fresh = {} THEN {} ELSE {CHOOSE t \in Fresh : \A u \in Fresh : t <= u})
 
+\* overlap-free schedules: each participant on a canonical thread
+MinFresh == IF Fresh = {} THEN cal ELSE CHOOSE t \in Fresh : \A u \in Fresh : t <= u
+SeqThread(q) == IF q = pl.cpart THEN cal ELSE IF pth[q] # -1 THEN pth[q] ELSE MinFresh
+
 Init == \E p \in Params : InitWith(p)
 
 Next ==
-  \/ Call(Cal0)
+  \/ Call(Cal0, P.cring)
   \/ \E t \in TCands, q \in Parts :
-       /\ (SeqOnly => active = {})
+       /\ (SeqOnly => active = {} /\ t = SeqThread(q))
        /\ \E c \in CandsFor(q) : BodyBegin(t, Slot(q), c[1], c[2])
   \/ \E t \in TCands :
        /\ (SeqOnly => active = {})
